@@ -11,6 +11,8 @@ NOTE = ("Trusted: go/ssa construction (x/tools v0.29.0), the engine's instructio
 
 # property -> (claimed?, level text, design ref)
 CLAIMED = {
+ "C06": ("The split entry points are executed symbolically on every ASCII text, every UCS-2 text of ASCII-range characters and every valid GSM 7-bit septet stream of the listed lengths (content, escape positions near the part boundaries, reference octet all symbolic); payload concatenation equals the encoded stream against a reference segmentation and a reference septet packer; fallback and reported coding for every BMP character and every invalid coding number.", "DESIGN.md 8 C06"),
+ "C14": ("For every well-formed UTF-16 / unpacked GSM-7 / (restricted) GB18030 stream of the listed lengths through the generic splitter, and every valid septet stream through the packed splitter, the solver decides that no part ends inside a multi-unit character; the coding-agnostic cut is a known finding per coding.", "DESIGN.md 8 C14"),
  "C19": ("The duration is the solver's variable: ToValidatePeriod and the relative formatter are executed symbolically for every whole-second duration (and every negative one, every unparsable text via an error flag), the digits of the result are related to the duration through digit variables; the float64 accessors are handled assume-guarantee: their integer contract is proved on the real time SSA in the SMT floating-point theory (cvc5) for the representable range, and used in place of the floats elsewhere.", "DESIGN.md 8 C19"),
  "C15": ("MD5 is abstracted as an uninterpreted function with congruence (every digest value possible), the decimal timestamp rendering by digit variables; the argument the library hands to MD5 is compared with the specification's concatenation, and the encode -> decode -> peer recomputation exchange is solver-decided for all accounts, secrets (bounded length), timestamps and digests, for the CMPP 2.0/3.0 connect exchange and the SMGP 3.0 login.", "DESIGN.md 8 C15"),
  "C18": ("Receipts are assembled from ordered key selections (enumerated) with symbolic values; the real extraction functions are executed symbolically (substring search as first-match terms) and every present/absent key's result is solver-decided; the CMPP status-report body round-trips as in C01.", "DESIGN.md 8 C18"),
